@@ -10,11 +10,12 @@ partial def mentionsAsset (j : Json) : Bool :=
   | .arr xs => xs.any mentionsAsset
   | _ => false
 
-/-- does the data carry a Go value the data-conversion model has no counterpart for (`{"__go": "ordered", …}`: a Go map type with
-a display order of its own)? Such jobs are judged on the real engine only (concurrent = alone, same in every process). -/
+/-- does the data carry a marker that the harness turns into a Go value a JSON document cannot hold (`{"__go": "ordered", …}`: a Go
+map type with a display order of its own; `zeroptr`, `leafy`, `nilslice`, …)? The JSON data-conversion model has no counterpart for
+those; such jobs are judged on the real engine only (concurrent = alone, same in every process). -/
 partial def hasGoOrdered (j : Json) : Bool :=
   match j with
-  | .obj kvs => kvs.toList.any fun (k, v) => (k == "__go" && v == .str "ordered") || hasGoOrdered v
+  | .obj kvs => kvs.toList.any fun (k, v) => k == "__go" || hasGoOrdered v
   | .arr xs => xs.any hasGoOrdered
   | _ => false
 
